@@ -43,7 +43,12 @@ Section Ok.
     | CustomInv cs has sg nm =>
         tree_okb nm && stored_okb sg nm &&
         (negb has || match cs with Some c => sig_eqb c sg | None => false end)
-    | Switch _ _ _ => false
+    | Switch brs sg _ =>
+        Nat.eqb (sua sg) 0 && Nat.eqb (suo sg) 0 &&
+        forallb (fun a : sig * node =>
+          tree_okb (snd a) && stored_okb (fst a) (snd a) &&
+          Nat.eqb (sua (fst a)) 0 && Nat.eqb (suo (fst a)) 0 &&
+          (so (fst a) <=? so sg) && (sa (fst a) + (so sg - so (fst a)) <=? sa sg)) brs
     | _ => true end.
 End Ok.
 Definition asm_okb (asm : list node) : bool := forallb (tree_okb asm) asm.
@@ -56,7 +61,7 @@ Fixpoint has_unproved (n : node) : bool :=
   | Run ns => existsb has_unproved ns
   | Mod mk args => unprovedb mk || existsb (fun a : sig * node => has_unproved (snd a)) args
   | Arr _ i _ | NoInline i | TrackCaller _ i | CustomInv _ _ _ i => has_unproved i
-  | Switch _ _ _ => true
+  | Switch brs _ _ => existsb (fun a : sig * node => has_unproved (snd a)) brs
   | _ => false end.
 Fixpoint has_uncovered (n : node) : bool :=
   match n with
